@@ -513,6 +513,13 @@ def explore(task, make_interp, outdir, max_paths=400, feas_timeout=3.0):
         except RecursionError:
             c.status = "unsupported"
             undecided = "recursion limit"
+        except Exception as e:  # noqa: BLE001
+            # the harness of the task (or the interpreter) does not cope with this shape of the code: a
+            # limit of the machinery - undecided, never a verdict about the code
+            import traceback
+
+            c.status = "unsupported"
+            undecided = f"checker harness error {type(e).__name__}: {e} [{traceback.format_exc().strip().splitlines()[-3].strip()[:120]}]"
         finally:
             ctxmod.CUR = None
         done.append(c)
